@@ -1,6 +1,6 @@
 import vf
 
-RULE = ("Gen_Segments: one TLC state per ordered pair of segments of the 4x4 lattice (zero-length ones included, 65 536 pairs) "
+RULE = ("Gen_Segments (abstract Relation + the implementation-shaped decision tree Decide; TLC checks TreeRefines: the tree computes the relation, both argument orders; hook H5 reports the branch the code took, which must be the model's branch, and every one of the 20 branches must occur in every run): one TLC state per ordered pair of segments of the 4x4 lattice (zero-length ones included, 65 536 pairs) "
         "with the exact relation: none / collinear with the shared sub-segment / single point (proper with the exact rational "
         "crossing, or improper = the endpoint involved); RelLaws (independence of operand order and direction) checked on every "
         "state. Replay in three operand orders / directions, under exact maps (offset 1e8, 2^+-k, D4, shears): class equal, "
@@ -10,12 +10,18 @@ RULE = ("Gen_Segments: one TLC state per ordered pair of segments of the 4x4 lat
 ASSUME = ["proper crossings: tolerance 4 ulp of the largest coordinate magnitude", "nearly parallel segments are represented by the ulp-perturbed collinear family"]
 
 
+# every return site of line_intersection (hook H5 labels = branches of Gen_Segments!Decide) must be taken in every run
+BRANCHES = ["env_disjoint", "q_one_side", "p_one_side", "proper", "ep_shared_pstart", "ep_shared_pend", "ep_qstart", "ep_qend", "ep_pstart",
+            "ep_pend"] + ["col%d" % i for i in range(1, 11)]
+
+
 def check(tier, seed, t0):
     st = 4 if tier == "quick" else 1
-    runs = [dict(name="lattice", module="Gen_Segments", constants=dict(K=3, Stride=st, Offset=seed % st), invariants=["RelLaws"]),
+    runs = [dict(name="lattice", module="Gen_Segments", constants=dict(K=3, Stride=st, Offset=seed % st), invariants=["RelLaws", "TreeRefines"]),
             dict(name="perturbed", module="Gen_Kernel", constants=dict(K=4, PB=1, PC=2, Stride=st + 1, Offset=seed % (st + 1)), invariants=["Identity"])]
     vf.simple_check("C11", tier, seed, t0, runs, RULE, ASSUME,
-                    nontrivial=lambda c: (c["op"] == "kernel" and c["mid"]) or (c["op"] == "segseg" and c["rel"]["kind"] != "none"))
+                    nontrivial=lambda c: (c["op"] == "kernel" and c["mid"]) or (c["op"] == "segseg" and c["rel"]["kind"] != "none"),
+                    require_counters=["branch_" + b for b in BRANCHES])
 
 
 def replay(path, seed, t0):
